@@ -547,6 +547,7 @@ class Z2:
         self.witnesses = {}
         self.skipped_overflow = 0
         self.points = 0
+        self.misses = {}
         self.illformed = {}  # key -> (context, lo, hi, where): Integer::from_interval(lo, hi) with lo > hi panics (C18/P4)
 
     def resolve(self, qual):
@@ -603,17 +604,22 @@ class Z2:
         for bound, bad, possible, tags, wrong_end in (("lo", size.lo.v > lo, lo, size.lo.tags, ".max"), ("hi", size.hi.v < hi, hi, size.hi.tags, ".min")):
             if not bad:
                 continue
+            self.misses[(key, bound)] = self.misses.get((key, bound), 0) + 1
             w = self.witnesses.setdefault((key, bound), {"where": where, "subs": {}, "pol": set()})
             w["pol"] |= {t for t in tags if t.endswith(wrong_end)}
             if sub not in w["subs"] and len(w["subs"]) < 4:
                 w["subs"][sub] = "%s: declared size [%s, %s] but %s row(s) are possible" % (ctx, sz(size.lo.v), sz(size.hi.v), sz(possible))
 
     def flush(self):
+        # a different (e.g. tighter) wrong bound of an already-known construct must show up as a NEW violation: the key carries the
+        # number of grid points on which the declared interval misses a possible row count
+        for (key, bound), w in self.witnesses.items():
+            w["n"] = self.misses.get((key, bound), 0)
         for (key, bound), w in self.witnesses.items():
             pol = ""
             if w["pol"]:
                 pol = " — the %s bound is computed from an input *%s* bound (%s)" % ("lower" if bound == "lo" else "upper", "upper" if bound == "lo" else "lower", ", ".join(sorted(w["pol"])))
-            self.rep.violation("Z2", "%s:%s" % (key, bound), " | ".join(w["subs"].values()) + pol, w["where"])
+            self.rep.violation("Z2", "%s:%s#%d" % (key, bound, w["n"]), " | ".join(w["subs"].values()) + pol + " [%d grid points]" % w["n"], w["where"])
 
     def run(self):
         rep = self.rep
